@@ -271,8 +271,13 @@ def order_trav(ctx: Ctx) -> List[Ob]:
             obs.append(ctx.ob("ORDER-TRAV", ["C06"], f, f"{name}: starts with self's children", None, ok,
                               "" if ok else "the first level must be the start node's child list"))
             # next-level accumulator: bound to `cur` as the last step of each round
-            last = wl.body[-1]
-            ok = isinstance(last, ast.Assign) and len(last.targets) == 1 and norm(last.targets[0]) == cur and isinstance(last.value, (ast.Name, ast.ListComp))
+            # (after it nothing of this round is emitted and the level variable is not read any more; statements that are
+            # independent of it - toggling the direction flag - may follow)
+            advs = [st for st in wl.body if isinstance(st, ast.Assign) and len(st.targets) == 1 and norm(st.targets[0]) == cur]
+            last = advs[-1] if advs else wl.body[-1]
+            after_ = wl.body[wl.body.index(last) + 1:] if advs else []
+            ok = len(advs) == 1 and isinstance(last.value, (ast.Name, ast.ListComp)) and not any(
+                isinstance(x, (ast.Yield, ast.YieldFrom, ast.Call)) or (isinstance(x, ast.Name) and x.id == cur) for st_ in after_ for x in ast.walk(st_))
             nxt = (last.value.id if isinstance(last.value, ast.Name) else cur) if ok else None
             obs.append(ctx.ob("ORDER-TRAV", ["C06"], f, f"{name}: the level list is advanced as the last step of each round", last, ok,
                               "" if ok else "the current level must be fully emitted before it is replaced by the next one"))
